@@ -506,9 +506,17 @@ impl Document {
 
             cursor += 1;
 
-            if cursor >= self.tokens.len() - 1 {
+            if cursor >= self.tokens.len() {
                 break;
             }
+        }
+
+        // An initialism that runs up to the end of the document still needs its span extended
+        // over the tokens we are about to remove.
+        if let Some(start) = initialism_start {
+            let end = self.tokens[cursor - 2].span.end;
+            let start_tok: &mut Token = &mut self.tokens[start];
+            start_tok.span.end = end;
         }
 
         self.tokens.remove_indices(to_remove);
